@@ -588,11 +588,19 @@ TreeExact == Done /\ ctl.ok /\ D.ok => ctl.v = D.v
 RuleFrames == {i \in 1..Len(stack) : stack[i].k = "rule"}
 \* (checked when a frame has just been pushed, against every frame below it: by induction that is
 \* the property for all pairs)
+\* A rule that is not @leftrec itself may be active twice at one offset only around an active @leftrec
+\* rule at that offset (L = @:LP | @:A; LP = l:*L ...; with whitespace skipped before LP is called from
+\* L at an earlier offset, LP is entered at p, calls L at p, whose seed enters LP at p again: the inner
+\* reference to L is then answered from the growth cache).  An active @leftrec rule is on the stack at most
+\* once per offset, so the number of frames per offset stays bounded by the grammar.
 NoReentry ==
   ctl.m = "rule" =>
     \A i \in 1..(Len(stack) - 1) :
        (stack[i].k = "rule" /\ stack[i].ri = Top.ri /\ stack[i].st0.p = Top.st0.p)
-          => G.rules[Top.ri].leftrec
+          => \/ G.rules[Top.ri].leftrec
+             \/ \E j \in (i + 1)..(Len(stack) - 1) :
+                   /\ stack[j].k = "rule" /\ stack[j].st0.p = Top.st0.p
+                   /\ G.rules[stack[j].ri].kind = "rule" /\ G.rules[stack[j].ri].leftrec
 
 \* every closure iteration consumes, every growth step is strictly further
 CloProgress == [][CloIter => ctl.st.p > Top.st.p]_vars
